@@ -919,7 +919,7 @@ def describe(case):
 
 def plan(tier):
     if tier == "thorough":
-        return [("M1", 350000), ("M2", 500000), ("M2sweep", 20000), ("M3", 40000)], 1500
+        return [("M1", 200000), ("M2", 300000), ("M2sweep", 10000), ("M3", 30000)], 1800
     return [("M1", 6000), ("M2", 9000), ("M2sweep", 500), ("M3", 1200)], 300
 
 
